@@ -278,3 +278,19 @@ func (r *Result) finish(verifDir string, start time.Time, seed int, checkerCmd s
 	}
 	return 0
 }
+
+// shareRule runs another property's check and adopts the obligations of one of its rules (optionally
+// filtered) under a rule name of this property: the same structural fact is a necessary condition of both.
+func shareRule(P *Prog, r *Result, src ruleFunc, srcRule string, keep func(o Obligation) bool, newRule string, floor int) {
+	tmp := NewResult(r.Prop, r.Tier)
+	src(P, tmp)
+	for _, o := range tmp.Obls {
+		if o.Rule != srcRule || (keep != nil && !keep(o)) {
+			continue
+		}
+		o.Rule = newRule
+		r.Obls = append(r.Obls, o)
+		r.Instances[newRule]++
+	}
+	r.floor(newRule, floor)
+}
